@@ -83,8 +83,10 @@ impl Driver {
             return Ok(res.clone());
         }
 
-        let content =
-            fs::read_to_string(path.clone()).expect("Should have been able to read the file");
+        let content = fs::read_to_string(path.clone()).map_err(|err| DriverError::Io {
+            path: path.display().to_string(),
+            message: err.to_string(),
+        })?;
         self.sources.insert(path.clone(), content.clone());
         Ok(content)
     }
@@ -416,7 +418,8 @@ impl Driver {
 
     /// This function converts a [`DriverError`] to a [`miette`] report.
     pub fn error_to_report(&mut self, err: DriverError, path: &PathBuf) -> miette::Report {
-        let content = self.source(path).expect("Couldn't find source file");
+        // if the source itself could not be read, the error is reported without source code
+        let content = self.source(path).unwrap_or_default();
         let err: miette::Error = err.into();
         err.with_source_code(content)
     }
